@@ -30,9 +30,29 @@ pub fn convert(f: &f::Layout) -> Result<s::Layout, String> {
     adjust_repeats(&mut res, &from_table, &alias_mappings, fm)?;
   }
   
+  for sm in &res {
+    if has_repeated_key(&sm.from) {
+      return Err(format!("Mapping from {:?} lists the same key twice in `from`", sm.from));
+    }
+    if has_repeated_key(&sm.to) {
+      return Err(format!("Mapping from {:?} lists the same key twice in `to`: {:?}", sm.from, sm.to));
+    }
+  }
+  
   Ok(s::Layout {
     mappings: res
   })
+}
+
+fn has_repeated_key(keys: &Vec<KeyCode>) -> bool {
+  for i in 0 .. keys.len() {
+    for j in i+1 .. keys.len() {
+      if keys[i] == keys[j] {
+        return true;
+      }
+    }
+  }
+  false
 }
 
 fn adjust_repeats<'a>(res: &mut Vec<s::Mapping>, from_table: &HashMap<FromSet, Vec<usize>>, alias_mappings: &'a HashMap<String, Vec<&'a f::AliasMapping>>, fm: &f::Mapping) -> Result<(), String> {
@@ -256,7 +276,10 @@ fn convert_row_to(has_right_shift: bool, modifiers: &Vec<KeyCode>, terminals: &V
         Some(sk) => {
           let mut to = modifiers.clone();
           if sk.sh {
-            to.push(if has_right_shift {KeyCode::RIGHTSHIFT} else {KeyCode::LEFTSHIFT});
+            let shift = if has_right_shift {KeyCode::RIGHTSHIFT} else {KeyCode::LEFTSHIFT};
+            if !to.contains(&shift) {
+              to.push(shift);
+            }
           }
           to.push(sk.k);
           Ok(Some(to))
